@@ -13,7 +13,6 @@ import (
 	"time"
 
 	"github.com/arm-doe/sts"
-	"github.com/arm-doe/sts/fileutil"
 )
 
 type logMsg struct {
@@ -364,21 +363,22 @@ func (rf *rollingFile) eachLine(handler func(string) bool,
 	return broke
 }
 
-// search will look for a given text patterns to match a single line in the log
-// history
+// search will look for a record of the named file (text[0]) that also contains
+// every other given pattern.  The name has to match the record's whole name
+// field (records start with "<name>:") rather than any part of the line, and a
+// line that matches the name but not the other patterns does not end the search.
 func (rf *rollingFile) search(text []string, start time.Time, stop time.Time) bool {
 	if len(text) == 0 {
 		return false
 	}
-	b := []byte(text[0])
-	var line string
-	return rf.each(func(path string) bool {
-		line = fileutil.FindLine(path, b)
-		if line == "" {
+	prefix := text[0] + ":"
+	return rf.eachLine(func(line string) bool {
+		if !strings.HasPrefix(line, prefix) {
 			return false
 		}
+		rest := line[len(text[0]):]
 		for _, t := range text[1:] {
-			if !strings.Contains(line, t) {
+			if !strings.Contains(rest, t) {
 				return false
 			}
 		}
